@@ -24,7 +24,8 @@ def strip_obs(case):
         steps.append(
             {
                 "call": st["call"],
-                "obs": {"kind": o["kind"], "entered": o["entered"], "resolve": o["resolve"]},
+                "obs": {"kind": o["kind"], "entered": o["entered"], "resolve": o["resolve"],
+                        **({"display": o["display"]} if o.get("display", {}).get("kind") in ("run", "none") else {})},
             }
         )
     return {"id": case["id"], "props": case["props"], "world": case["world"], "steps": steps}
@@ -182,6 +183,11 @@ def run(prop, tier, seed, replay=None):
         cjobs = rng.sample(cjobs, 400)
     jobs, parts = gen_jobs(prop, tier, seed)
     jobs += cjobs
+    if prop == "C02":
+        # beyond the listed properties: f.display_resolution(*args) is recorded for every call (X2 clauses)
+        for j in jobs:
+            if not any(m.get("factory") for m in j["world"]["methods"]):
+                j["display"] = True
     cases = pool.run(workers.static_cases, jobs)
     if prop == "C01":
         # value-dependent annotations (Literal / Dependent / unions of them, keyword-only, lookup-table shapes):
@@ -284,6 +290,10 @@ def run(prop, tier, seed, replay=None):
                 rep.spec_drift(f"ResolveImpl does not predict the observation of case {cid} (first of possibly many)")
         for rej in rejections(v):
             step = c["steps"][rej["step"] - 1]
+            if rej["clause"].startswith("X2:"):
+                rep.extra_note(rej["clause"], {"methods": c["world"]["methods"], "parents": c["world"]["parents"], "call": step["call"],
+                                               "display": step["obs"].get("display"), "observed": [e["m"] for e in step["obs"]["entered"]]})
+                continue
             rep.rejected(
                 rej["clause"],
                 {"kind": "static_case", "world": c["world"], "step": step, "case_id": cid},
@@ -300,6 +310,8 @@ def run(prop, tier, seed, replay=None):
         f"positionals, keyword-only typed parameters, priorities and re-registrations; plus {len(cjobs)} worlds of the TLC "
         "discrepancy census replayed (S->C). non-trivial = at least two methods applicable to the call; distinct by (world, call)."
     )
+    if prop == "C02":
+        rep.extra_checked("X2:display_resolution", sum(1 for c in cases for st in c["steps"] if st["obs"].get("display", {}).get("kind") in ("run", "none")))
     rep.extra["skipped_unrealisable_worlds"] = len(skipped)
     rep.extra["model_check_exhaustive"] = bool(mc_exhaustive)
     rep.extra["census_worlds_replayed"] = len(cjobs)
